@@ -1067,9 +1067,33 @@ func (fr *frame) mapInstr(st *State, in ssa.Instruction) {
 		fr.frameCheck(st, cell, mt.Elem(), x.Pos())
 		u.store(st, cell, mt.Elem(), fr.get(x.Value))
 		u.writeCell(st, "bool", c.Fld(cell, fMapPresent), c.True)
+	case *ssa.Range:
+		if _, ok := x.X.Type().Underlying().(*types.Map); !ok {
+			unsupported("range over %s", x.X.Type())
+		}
+		fr.vals[x] = &mapIter{m: fr.term(x.X), t: x.X.Type().Underlying().(*types.Map)}
+	case *ssa.Next:
+		it, ok := fr.get(x.Iter).(*mapIter)
+		if !ok {
+			unsupported("next on a non-map iterator")
+		}
+		// over-approximation of map iteration: each step yields SOME present entry (any order, repetitions
+		// allowed) or stops; sound for every property that does not rely on visiting each entry exactly once
+		u.Trusted["map iteration is modelled as: each step yields an arbitrary present entry or stops (order and multiplicity unspecified)"] = true
+		okT := c.Fresh("next.ok", SBool)
+		key := u.symVal(u.freshName("next.key"), it.t.Key(), false)
+		cell := fr.mapCellOf(st, it.m, key, it.t.Key())
+		u.assume(st, c.Implies(okT, c.And(c.Ne(it.m, c.NilA), u.readCell(st, "bool", c.Fld(cell, fMapPresent)))))
+		val := u.load(st, cell, it.t.Elem())
+		fr.vals[x] = TupleV{okT, key, val}
 	default:
 		unsupported("map instruction %T", in)
 	}
+}
+
+type mapIter struct {
+	m *Term
+	t *types.Map
 }
 
 func (fr *frame) mapDelete(st *State, cc *ssa.CallCommon, args []Val, pos token.Pos) Val {
